@@ -1,6 +1,7 @@
 package engine
 
 import (
+	"os"
 	"fmt"
 	"go/token"
 	"go/types"
@@ -583,7 +584,7 @@ func (c *Ctx) keepPrivate(st *State, before map[string]T) {
 // entry": contents of objects a callee allocated are described on the same
 // (unchanged) heap version and may point to fresh objects.
 func (c *Ctx) assumeEntryValid(st *State, addr T, v T, heap string) {
-	if c.entry == nil {
+	if c.entry == nil || os.Getenv("GOVC_NO_ENTRYVALID") != "" {
 		return
 	}
 	cur, ok := st.heaps[heap]
